@@ -191,6 +191,45 @@ def run(ctx):
                                     'consumer sees a normal end of stream'),
                [site(spawn[0], 0)],
                what='a panic inside an operator task ends the stream silently: the statement returns Ok with rows missing')
+    # the same for the part of a statement that runs on the caller's task: bind + optimize + build
+    from tmpl import origin_locals, local_defs
+    TARGET = re.compile(r'planner::optimizer::Optimizer::optimize$|^executor::build$|^binder::Binder::bind$')
+
+    def caught_closures(parent):
+        out = set()
+        for k in parent.calls:
+            if re.search(r'panic::catch_unwind$', k.fn or '') and k.args and k.args[0]['k'] != 'const':
+                for x in origin_locals(parent, k.args[0]['pl']['l'], depth=6):
+                    for _, kind, payload in local_defs(parent, x):
+                        if kind == 'assign' and payload.get('rv') == 'agg' and payload.get('kind') == 'closure':
+                            out.add(payload['def'])
+        return out
+    start = [g for g in prog.bodies.values() if g.name == 'db::Database::run' or g.name == 'db::Database::run::{closure#0}']
+    planners, seen, todo = [], set(), [(g, False) for g in start]
+    while todo:
+        g, prot = todo.pop()
+        if (g.name, prot) in seen:
+            continue
+        seen.add((g.name, prot))
+        caught = caught_closures(g)
+        for _, child in g.closure_sites():
+            if child in prog.bodies:
+                todo.append((prog.bodies[child], prot or child in caught))
+        for c in g.calls:
+            if TARGET.search(c.fn or ''):
+                planners.append((g, c, prot))
+            for cn in prog.callee_bodies(c):
+                if cn.startswith('db::') and len(seen) < 60:
+                    todo.append((prog.bodies[cn], prot))
+    if ctx.anchor(R2, 'Database::run: calls of Binder::bind / Optimizer::optimize / executor::build', len(planners) >= 3):
+        bad = [(g, c) for g, c, prot in planners if not prot]
+        ctx.functions_analysed.update(g.name for g, _, _ in planners)
+        ctx.ob(R2, 'Database::run·planner-panic→Err', not bad,
+               f'{len(planners)} calls of bind / optimize / build reachable from Database::run; not under a closure handed to catch_unwind: '
+               f'{[(g.name.split("::", 2)[-1], c.fn.rsplit("::", 1)[-1]) for g, c in bad]}',
+               [site(g, c.bb) for g, c in (bad or [(g, c) for g, c, _ in planners])][:3],
+               what='Database::run calls the binder / the optimizer / the executor builder unprotected: a plan shape they do not handle (an Apply that '
+                    'survived, a column the builder cannot resolve, an unsupported literal ..) panics on the caller\'s task instead of failing the statement')
 
     # R3 ----------------------------------------------------------------------------------------------
     R3 = 'C15-R3'
@@ -295,16 +334,7 @@ def run(ctx):
         ctx.ob(R6, f'memory·field-writer·{b.root}', own,
                f'{b.name} writes {sorted({m[1] for m in muts})}: only InMemoryTableInner\'s own methods may', [site(b, muts[0][0])])
     ctx.floor(R6, n_w, 2, 'functions that mutate InMemoryTableInner fields')
-    DISK_OK = {'storage::secondary::transaction::SecondaryTransaction::commit_inner',
-               'storage::secondary::compactor::Compactor::compact_table',
-               'storage::secondary::manifest::<impl storage::secondary::SecondaryStorage>::create_table_inner',
-               'storage::secondary::manifest::<impl storage::secondary::SecondaryStorage>::drop_table_inner',
-               'storage::secondary::storage::<impl storage::secondary::SecondaryStorage>::bootstrap'}
-    cc = prog.calls_matching_all(re.compile(r'VersionManager::(commit_changes|rewrite_changes)$'))
-    ctx.floor(R6, len(cc), 5, 'call sites of VersionManager::commit_changes / rewrite_changes')
-    for c in cc:
-        ctx.ob(R6, f'disk·commit_changes·from·{c.body.root}', c.body.root in DISK_OK,
-               f'{c.name} called from {c.body.name}', [site(c.body, c.bb)])
+    committers_rule(ctx, prog, R6)
     ci = prog.calls_matching_all(re.compile(r'SecondaryTransaction::commit_inner$'))
     for c in ci:
         ok = c.body.root == '<storage::secondary::transaction::SecondaryTransaction as storage::Transaction>::commit'
@@ -389,3 +419,16 @@ def decode_errors_examined(ctx, prog, R8, path_re, floor):
     ctx.ob(R8, 'decoding-calls·errors-examined', True, f'{n_dec} decoding calls with a decode error type examined', nontrivial=False)
     ctx.floor(R8, n_dec, floor, 'calls returning Result<_, decode error> on the examined paths')
 
+
+def committers_rule(ctx, prog, R6):
+    """who may call VersionManager::commit_changes (shared with C09-R9)"""
+    DISK_OK = {'storage::secondary::transaction::SecondaryTransaction::commit_inner',
+               'storage::secondary::compactor::Compactor::compact_table',
+               'storage::secondary::manifest::<impl storage::secondary::SecondaryStorage>::create_table_inner',
+               'storage::secondary::manifest::<impl storage::secondary::SecondaryStorage>::drop_table_inner',
+               'storage::secondary::storage::<impl storage::secondary::SecondaryStorage>::bootstrap'}
+    cc = prog.calls_matching_all(re.compile(r'VersionManager::(commit_changes|rewrite_changes)$'))
+    ctx.floor(R6, len(cc), 5, 'call sites of VersionManager::commit_changes / rewrite_changes')
+    for c in cc:
+        ctx.ob(R6, f'disk·commit_changes·from·{c.body.root}', c.body.root in DISK_OK,
+               f'{c.name} called from {c.body.name}', [site(c.body, c.bb)])
